@@ -8,7 +8,7 @@ from ..client import Server, ServerDied, Timeout, FrameError, tdp
 from .. import lspmodel, reflex
 
 FRAGS = ["x", "y1", "idx", "main", "proc ", "type ", "var ", "if ", "while ", "(", ")", "{", "}", ";", ":=", ":", "=", "<", "+", "1", "42", "0x1F", "'a'", "'€'", "'😀'",
-         "é", "€", "😀", "ä", "ß", " ", "  ", "\t", "\n", "\n", "\r\n", "\r", "\n\n", "// c é€😀 x\n", "// tail", "/", "'", "_a"]
+         "é", "€", "😀", "ä", "ł", " ", "  ", "\t", "\n", "\n", "\r\n", "\r", "\n\n", "// c é€😀 x\n", "// tail", "/", "'", "_a"]
 URIS = ["file:///c08/plain.spl", "file:///c08/with%20space.spl", "file:///c08/%C3%A4%E2%82%AC.spl", "file:///c08/dir/sub/x.spl", "untitled:Untitled-1", "file:///C:/c08/win.spl"]
 
 
